@@ -108,7 +108,7 @@ func govcAnaRun(sql string, rows []map[string]any, viaSink bool) ([]map[string]a
 		}
 		s.Emit(c)
 	}
-	deadline := time.Now().Add(2 * time.Second)
+	deadline := time.Now().Add(15 * time.Second)
 	for time.Now().Before(deadline) {
 		mu.Lock()
 		n := len(out)
